@@ -1312,6 +1312,8 @@ class Server:
         async def mlsd_worker(self, connection, rest):
             stream = connection.data_connection
             del connection.data_connection
+            # another USER changes limits of connection, not of this transfer
+            stream.throttles = dict(stream.throttles)
             async with stream:
                 async for path in connection.path_io.list(real_path):
                     s = await self.build_mlsx_string(connection, path)
@@ -1371,6 +1373,8 @@ class Server:
         async def list_worker(self, connection, rest):
             stream = connection.data_connection
             del connection.data_connection
+            # another USER changes limits of connection, not of this transfer
+            stream.throttles = dict(stream.throttles)
             async with stream:
                 async for path in connection.path_io.list(real_path):
                     if not (await connection.path_io.exists(path)):
@@ -1449,6 +1453,8 @@ class Server:
         async def stor_worker(self, connection, rest):
             stream = connection.data_connection
             del connection.data_connection
+            # another USER changes limits of connection, not of this transfer
+            stream.throttles = dict(stream.throttles)
             if restart_offset:
                 file_mode = "r+b"
             else:
@@ -1497,6 +1503,8 @@ class Server:
         async def retr_worker(self, connection, rest):
             stream = connection.data_connection
             del connection.data_connection
+            # another USER changes limits of connection, not of this transfer
+            stream.throttles = dict(stream.throttles)
             file_in = connection.path_io.open(real_path, mode="rb")
             async with stream, file_in:
                 if restart_offset:
